@@ -57,6 +57,7 @@ type vfRedisEvent struct {
 	Name    string // upper-case command name
 	Key     string // first key argument (raw)
 	IsLock  bool
+	LockOp  string // for lock scripts: obtain | refresh | release-or-pttl (by the script's argument count)
 	Fault   vfRedisFault
 	Err     string
 	At      time.Duration
@@ -162,6 +163,17 @@ func (h *vfRedisHook) ProcessHook(next goredis.ProcessHook) goredis.ProcessHook 
 			return next(ctx, cmd)
 		}
 		ev := &vfRedisEvent{Task: vfTaskOf(ctx), Replica: h.rep.name, Name: name, Key: key, IsLock: strings.HasSuffix(key, ".lock")}
+		if ev.IsLock && (name == "EVALSHA" || name == "EVAL") {
+			// redislock: obtain(key; value, tokenLen, ttl), refresh(key; value, ttl), release / pttl(key; value)
+			switch len(args) - 4 {
+			case 3:
+				ev.LockOp = "obtain"
+			case 2:
+				ev.LockOp = "refresh"
+			default:
+				ev.LockOp = "release-or-pttl"
+			}
+		}
 		detail := name
 		if key != "" {
 			detail += " " + w.sym("rkey", key)
